@@ -437,7 +437,10 @@ class Sampler():
                 # If the sampler was resumed from a checkpoint written after
                 # the last batch of the exploration phase but before the
                 # exploration phase was wrapped up, don't add another batch.
-                if np.sum(self.shell_n) == 0 or not self.f_live <= f_live:
+                # The live fraction is only meaningful after a batch has
+                # been drawn from the newest bound, i.e., not right after a
+                # bound was added and points may still be transferred to it.
+                if self.n_like_iter == 0 or not self.f_live <= f_live:
 
                     if ((self.n_update_iter >= self.n_update or
                          self.n_like_iter >= self.n_like_new_bound) and
